@@ -179,6 +179,8 @@ def r4_progress(rep, facts, g):
             ok = not pm.nullable_of(g, p)
             rep.check(R, key, ok, f'{g.describe(p)[:60]} consumes input', f'`{short(d)}`: repeat(..) over `{g.describe(p)[:80]}`, which can succeed without consuming input (winnow aborts or loops)', loc)
     # the escaping writer: the stream shrinks on every iteration
+    if not facts.has_body('toml_write::string::write_toml_value'):
+        return
     b = facts.body('toml_write::string::write_toml_value')
     shr = [n for n in walk(b['body']) if n.get('k') == 'assign' and (peel(n['lhs']).get('path') or '').startswith('stream') and any(y.get('k') == 'index' for y in walk(n['rhs']))]
     guard = False
